@@ -8,6 +8,7 @@ CONSTANTS
   InvAlpha = {"f", "g", "a", "1", "(", ")", ","}
   VarWs = FALSE
   InvHead = TRUE
+  InvBal = FALSE
   NameScheme = 1
   MaxLines = 1
   MaxNest = 1
